@@ -15,10 +15,17 @@ class _IntMeta(type):
         return issubclass(sub, builtins.int)
 
     def __call__(cls, x=0, *a, **k):
-        if type(x) is SymInt and not a and not k:
+        if a or k or isinstance(x, (str, bytes, bytearray, float)):
+            return builtins.int(x, *a, **k)
+        if type(x) is SymInt:
             return x
-        r = builtins.int(x, *a, **k)
-        return r
+        m = getattr(type(x), '__int__', None)
+        if m is not None and not isinstance(x, builtins.int):
+            r = m(x)
+            if type(r) is SymInt:
+                return r
+            return builtins.int(r)
+        return builtins.int(x)
 
     def __or__(cls, other):
         return builtins.int | other
@@ -38,9 +45,46 @@ class int_pass(metaclass=_IntMeta):
     from_bytes = builtins.int.from_bytes
 
 
+_PATCHES = []
+_MISSING = object()
+
+
+def patch(module, name, value):
+    """rebind a module-level name, remembering the old binding (restored by reset_all)"""
+    _PATCHES.append((module, name, module.__dict__.get(name, _MISSING)))
+    module.__dict__[name] = value
+
+
+def patch_attr(obj, name, value):
+    _PATCHES.append((obj, name, ('attr', getattr(obj, name, _MISSING))))
+    setattr(obj, name, value)
+
+
+def reset_all():
+    while _PATCHES:
+        m, name, old = _PATCHES.pop()
+        if isinstance(old, tuple) and old and old[0] == 'attr':
+            if old[1] is _MISSING:
+                try:
+                    delattr(m, name)
+                except AttributeError:
+                    pass
+            else:
+                setattr(m, name, old[1])
+        elif old is _MISSING:
+            m.__dict__.pop(name, None)
+        else:
+            m.__dict__[name] = old
+    try:
+        from fpy2.number import globals as g, native
+        g.set_current_str_converter(native.default_str_convert)
+    except Exception:
+        pass
+
+
 def install_int_pass(*modules):
     for m in modules:
-        m.__dict__['int'] = int_pass
+        patch(m, 'int', int_pass)
 
 
 def uninstall_int_pass(*modules):
@@ -59,3 +103,80 @@ def stub_formatting():
     """number -> str conversion gets an empty body (error messages interpolate operands)"""
     from fpy2.number import globals as g
     g.set_current_str_converter(lambda x: '<number>')
+
+
+# ---- fractions.Fraction with symbolic dyadic content ---------------------------------------------------------
+import fractions as _fr
+import z3 as _z3
+
+
+def _ctz_term(a, W, limit):
+    """number of trailing zero bits of a (a != 0), as a BV term"""
+    r = _z3.BitVecVal(0, W)
+    for i in range(limit, -1, -1):
+        r = _z3.If(_z3.Extract(i, i, a) == 1, _z3.BitVecVal(i, W), r)
+    return r
+
+
+def make_dyadic(n, d=None):
+    """a real fractions.Fraction object n/d in lowest terms, where d is a power of two; n, d may be SymInt"""
+    e = cur()
+    f = object.__new__(_fr.Fraction)
+    if d is None:
+        f._numerator = n; f._denominator = 1
+        return f
+    W = e.W
+    nt = bv(n); dt = bv(d)
+    e.oblige(_z3.And(dt > 0, (dt & (dt - 1)) == 0), 'fraction-denominator-power-of-two')
+    lim = min(e.bl_max, W - 2)
+    k = _ctz_term(dt, W, lim)          # d = 2^k
+    tz = _z3.If(nt == 0, k, _ctz_term(nt, W, lim))
+    t = _z3.If(_z3.ULT(tz, k), tz, k)
+    f._numerator = SymInt(nt >> t)      # arithmetic shift keeps the sign; exact (t <= ctz(n))
+    f._denominator = SymInt(_z3.LShR(dt, t))
+    return f
+
+
+class _FracMeta(type):
+    def __instancecheck__(cls, obj):
+        return isinstance(obj, _fr.Fraction)
+
+    def __subclasscheck__(cls, sub):
+        return issubclass(sub, _fr.Fraction)
+
+    def __call__(cls, numerator=0, denominator=None, **k):
+        if type(numerator) is SymInt or type(denominator) is SymInt:
+            return make_dyadic(numerator, denominator)
+        if isinstance(numerator, _fr.Fraction) and denominator is None:
+            return numerator
+        return _fr.Fraction(numerator, denominator, **k)
+
+    def __or__(cls, other):
+        return _fr.Fraction | other
+
+    def __ror__(cls, other):
+        return other | _fr.Fraction
+
+
+class frac_pass(metaclass=_FracMeta):
+    """drop-in for the module-level name `Fraction`"""
+
+
+def install_frac_pass(*modules):
+    for m in modules:
+        patch(m, 'Fraction', frac_pass)
+
+
+class HashRecorder:
+    """stand-in for the module-level `hash`: records the key handed to hash() (uninterpreted)"""
+    def __init__(self):
+        self.keys = []
+
+    def __call__(self, obj):
+        if isinstance(obj, _fr.Fraction):
+            self.keys.append(('frac', obj._numerator, obj._denominator))
+        elif isinstance(obj, builtins.int):
+            self.keys.append(('int', obj))
+        else:
+            return builtins.hash(obj)
+        return 0
